@@ -1845,6 +1845,14 @@ class BootstrapElectionModel(BaseElectionModel):
             aggregate_dem_prob_B_1 = expit(self.T * self.divided_error_B_1)
             aggregate_dem_prob_B_2 = expit(self.T * self.divided_error_B_2)
 
+        if self.called_contests is not None:
+            # if there is a call, there is no uncertainty in the outcome: the contest has the called outcome in every
+            # bootstrap sample, otherwise its samples still decide which samples become the interval endpoints
+            called_contests = self.called_contests.flatten()
+            for dem_prob_B in (aggregate_dem_prob_B_1, aggregate_dem_prob_B_2):
+                dem_prob_B[np.isclose(called_contests, 1)] = 1
+                dem_prob_B[np.isclose(called_contests, 0)] = 0
+
         # multiply by weights of each contest
         aggregate_dem_vals_B_1 = nat_sum_data_dict_sorted_vals * aggregate_dem_prob_B_1
         aggregate_dem_vals_B_2 = nat_sum_data_dict_sorted_vals * aggregate_dem_prob_B_2
